@@ -534,3 +534,31 @@ Theorem C13_f64_span_overflow_refuted :
   PrimFloat.eqb (mf_linz F64_ops px pa pb) PrimFloat.zero = true.
 Proof. exact f64_mf_span_overflow. Qed.
 Print Assumptions C13_f64_span_overflow_refuted.
+
+(* ------------------------------------------------------------------------------------------------------------------
+   THE [0,1] RANGE ON THE PRIMITIVE-FLOAT RUN (C13/MfFloat.v, Common/F64Refine.v): for finite binary64 arguments and
+   parameters of magnitude at most 2^1022 - no ordering assumed - the float values of a_mf_tri / a_mf_lins / a_mf_linz (the
+   instance compared bit for bit with the C) are finite, equal the rounded-real values, and lie in [0,1].  Together with
+   C13_f64_span_overflow_refuted this delimits the claim: it holds up to 2^1022 and fails once the span passes 2^1024. *)
+From Flocq Require Import Core.
+From LibaV Require Import Common.F64Refine C13.MfFloat.
+Theorem C13_f64_ramps_are_rounded_ramps :
+  (forall x a b c, okf x -> okf a -> okf b -> okf c ->
+     ffinite (mf_tri F64_ops x a b c) = true /\
+     f2r (mf_tri F64_ops x a b c) = mf_tri (Rnd_ops rnd64) (f2r x) (f2r a) (f2r b) (f2r c)) /\
+  (forall x a b, okf x -> okf a -> okf b ->
+     ffinite (mf_lins F64_ops x a b) = true /\ f2r (mf_lins F64_ops x a b) = mf_lins (Rnd_ops rnd64) (f2r x) (f2r a) (f2r b)) /\
+  (forall x a b, okf x -> okf a -> okf b ->
+     ffinite (mf_linz F64_ops x a b) = true /\ f2r (mf_linz F64_ops x a b) = mf_linz (Rnd_ops rnd64) (f2r x) (f2r a) (f2r b)).
+Proof. exact (conj f64_mf_tri_refines (conj f64_mf_lins_refines f64_mf_linz_refines)). Qed.
+Print Assumptions C13_f64_ramps_are_rounded_ramps.
+
+Theorem C13_f64_ramps_unit :
+  (forall x a b c, okf x -> okf a -> okf b -> okf c ->
+     ffinite (mf_tri F64_ops x a b c) = true /\ 0 <= f2r (mf_tri F64_ops x a b c) <= 1) /\
+  (forall x a b, okf x -> okf a -> okf b ->
+     ffinite (mf_lins F64_ops x a b) = true /\ 0 <= f2r (mf_lins F64_ops x a b) <= 1) /\
+  (forall x a b, okf x -> okf a -> okf b ->
+     ffinite (mf_linz F64_ops x a b) = true /\ 0 <= f2r (mf_linz F64_ops x a b) <= 1).
+Proof. exact f64_mf_ramps_unit. Qed.
+Print Assumptions C13_f64_ramps_unit.
